@@ -18,7 +18,7 @@ ASSUMPTIONS = [
     "implemented content rules are recognised behaviourally: validating a node governed by the rule must not report "
     "UNKNOWN_CONTENT_RULE / UnknownContentRuleError",
 ]
-REQUIRED = ["minimal_trees_accepted_after_history", "minimal_trees_accepted_after_repair", "elements_resolved", "rules_parsed", "child_names_checked", "minimal_trees_accepted", "content_rules_exercised"]
+REQUIRED = ["rule_queries_exercised", "late_registration_probes", "minimal_trees_accepted_after_queries", "minimal_trees_accepted_after_history", "minimal_trees_accepted_after_repair", "elements_resolved", "rules_parsed", "child_names_checked", "minimal_trees_accepted", "content_rules_exercised"]
 EXHAUSTIVE = {"quick": True, "thorough": True}
 
 
@@ -228,6 +228,83 @@ def history_phase(ctx, gen, elements):
                    {"element": e, "kind": "minimal-repaired"}, "minimal_trees_accepted_after_repair", "no-valid-tree-after-in-place-repair")
 
 
+def query_phase(ctx, gen, elements):
+    """The tables are read by more than the validator: every public query of every rule object is asked (twice), a child position is
+    computed, and the tables must afterwards still be what rules.json says, every rule still well-formed, every minimal tree still
+    valid."""
+    from vlib.emlkit import Node
+    for e in elements:
+        try:
+            r = mrule.get_rule(e)
+        except Exception:
+            continue        # reported by check_element
+        for _ in range(2):
+            try:
+                _ = (r.name, r.attributes, r.children, r.content_rules, r.content_enum, r.has_enum_content())
+                for a in list(r.attributes):
+                    r.is_required_attribute(a)
+                    r.allowed_attribute_values(a)
+                names = []
+                try:
+                    names = emlkit.spec_of(mrule.get_rule_name(e)).names[:4]
+                except Exception:
+                    pass
+                for nm in names + ["verifForeignElement"]:
+                    r.is_allowed_child(nm)
+                if names:
+                    p = Node(e)
+                    try:
+                        r.child_insert_index(p, Node(names[0]))
+                    except emlkit.mexc.MetapypeRuleError:
+                        pass
+                    emlkit.discard(p)
+                ctx.count("rule_queries_exercised")
+            except Exception as ex:
+                ctx.violation(f"query-raises:{type(ex).__name__}@{emlkit.raise_site(ex)}", f"a public query of the rule of <{e}> raised {ex!r}",
+                              {"element": e, "kind": "queries"})
+                break
+    ctx.evaluated()
+    check_table_text(ctx)
+    for name, data in emlkit.rules_table().items():
+        check_rule_structure(ctx, name, data)
+    for e in elements:
+        if gen.buildable(e):
+            judge_tree(ctx, gen.minimal_tree(e), f"minimal tree of {e} after every rule query was exercised", {"element": e, "kind": "queries"},
+                       "minimal_trees_accepted_after_queries", "no-valid-tree-after-rule-queries")
+
+
+def late_registration(ctx):
+    """An element name registered in the element-to-rule map after the library has been used (a downstream package switching on a
+    mapping the library ships commented out): if the library lists the name as known, it must resolve it like every other."""
+    from vlib.emlkit import Node
+    name, rule_name = "verifLateElement", "anyNameRule"
+    if rule_name not in emlkit.rules_table() or name in mrule.node_mappings:
+        return
+    mrule.node_mappings[name] = rule_name
+    try:
+        ctx.evaluated()
+        ctx.count("late_registration_probes")
+        if name not in mrule.node_names():
+            ctx.count("late_registration_not_listed")   # a snapshot taken at import: consistent, nothing to demand
+            return
+        wit = {"kind": "late-registration"}
+        try:
+            got = mrule.get_rule_name(name)
+            r = mrule.get_rule(name)
+            if got != rule_name or getattr(r, "name", None) != rule_name:
+                ctx.violation("rule-missing:late-registered-name", f"<{name}> is listed as known but resolves to {got!r} / {getattr(r, 'name', None)!r}", wit)
+            n = Node(name, content="some text")
+            mvalidate.node(n)
+            mvalidate.tree(n, errs := [])
+            if errs:
+                ctx.violation("rule-missing:late-registered-name", f"<{name}> (mapped to {rule_name}) does not validate: {errs[0][1]}", wit)
+            emlkit.discard(n)
+        except Exception as ex:
+            ctx.violation("rule-missing:late-registered-name", f"<{name}> is listed by node_names() but resolving/validating it raised {ex!r}", wit)
+    finally:
+        mrule.node_mappings.pop(name, None)
+
+
 def run(ctx, params):
     part, parts = params["part"], params["parts"]
     table = emlkit.rules_table()
@@ -268,6 +345,8 @@ def run(ctx, params):
         for e in elements:
             check_element(ctx, gen, e)
         history_phase(ctx, gen, elements)
+        query_phase(ctx, gen, elements)
+        late_registration(ctx)
         ctx.sample({"element": "eml", "minimal_tree": snapshot.to_plain(gen.minimal_tree("eml")) if gen.buildable("eml") else None})
     if ctx.tier == "thorough":
         for i, e in enumerate(elements):
@@ -286,8 +365,11 @@ def replay(ctx, witness):
     if "tree" in witness:
         t = snapshot.from_plain(emlkit.Node, witness["tree"])
         judge_tree(ctx, t, "recorded tree", witness, "replayed", f"no-valid-tree:{witness.get('element')}")
-    elif witness.get("table_text"):
-        check_table_text(ctx)
+    elif witness.get("kind") == "late-registration":
+        mvalidate.tree(gen.minimal_tree("eml"), [])
+        late_registration(ctx)
+    elif witness.get("table_text") or witness.get("kind") == "queries":
+        query_phase(ctx, gen, mrule.node_names())
     elif "child" in witness:
         if witness["child"] not in set(mrule.node_names()) and witness["child"] in emlkit.spec_of(witness["rule"]).names:
             ctx.violation(f"unknown-child:{witness['child']}@{witness['rule']}", "still an unknown child", witness)
